@@ -400,6 +400,10 @@ func (tp *ethTxPool) promoteExecutables(addrs []common.Address) {
 			// pending is not full, add
 			if err := tp.pending[addr].Add(tx); err == nil {
 				pendingTxCount++
+			} else {
+				// pending already holds another tx with this nonce: the tx left the waiting
+				// queue and is dropped, do not keep it in the lookup cache
+				delete(tp.all, tx.Hash())
 			}
 		}
 	}
@@ -414,9 +418,15 @@ func (tp *ethTxPool) addWaiting(tx *etypes.Transaction, address common.Address) 
 	}
 	if waitingTxCount >= tp.waitingLimit {
 		// waiting queue is full, try replace or return err
-		if tp.waiting[address] == nil || !tp.waiting[address].TryReplace(tx) {
+		if tp.waiting[address] == nil {
 			return errTxPoolWaitingQueueIsFull
 		}
+		replaced, ok := tp.waiting[address].TryReplace(tx)
+		if !ok {
+			return errTxPoolWaitingQueueIsFull
+		}
+		// the displaced tx is gone from the pool, forget it in the lookup cache too
+		delete(tp.all, replaced.Hash())
 	} else {
 		if tp.waiting[address] == nil {
 			tp.waiting[address] = newTxSortedMap()
